@@ -359,7 +359,17 @@ func parseAux(aux []byte) ([]sam.Aux, error) {
 				if j < 3 {
 					return nil, errors.New("bam: invalid zero terminated data: zero in tag")
 				}
-				aa = append(aa, sam.Aux(aux[i:i+j:i+j]))
+				if t == 'H' {
+					// The BAM format stores an H value as its hex digits; a
+					// sam.Aux of type H holds the bytes the digits stand for.
+					a, err := decodeHex(aux[i : i+j])
+					if err != nil {
+						return nil, err
+					}
+					aa = append(aa, a)
+				} else {
+					aa = append(aa, sam.Aux(aux[i:i+j:i+j]))
+				}
 				i += j + 1
 			case 'B':
 				if i+8 > len(aux) {
@@ -513,14 +523,55 @@ func newBuffer(br *Reader) (*buffer, error) {
 	return b, nil
 }
 
+// decodeHex returns the sam.Aux for the BAM H field f (tag, type and hex
+// digits, without the terminating zero).
+func decodeHex(f []byte) (sam.Aux, error) {
+	digits := f[3:]
+	if len(digits)&1 != 0 {
+		return nil, errors.New("bam: invalid hex data: odd number of digits")
+	}
+	a := make(sam.Aux, 3+len(digits)/2)
+	copy(a, f[:3])
+	for k := 0; k < len(digits); k += 2 {
+		hi, lo := unhex(digits[k]), unhex(digits[k+1])
+		if hi < 0 || lo < 0 {
+			return nil, fmt.Errorf("bam: invalid hex data: %q", digits[k:k+2])
+		}
+		a[3+k/2] = byte(hi<<4 | lo)
+	}
+	return a, nil
+}
+
+func unhex(c byte) int {
+	switch {
+	case '0' <= c && c <= '9':
+		return int(c - '0')
+	case 'A' <= c && c <= 'F':
+		return int(c-'A') + 10
+	case 'a' <= c && c <= 'f':
+		return int(c-'a') + 10
+	}
+	return -1
+}
+
 // buildAux constructs a single byte slice that represents a slice of sam.Aux.
 func buildAux(aa []sam.Aux) (aux []byte) {
+	const digits = "0123456789ABCDEF"
 	for _, a := range aa {
 		// TODO: validate each 'a'
-		aux = append(aux, []byte(a)...)
 		switch a.Type() {
-		case 'Z', 'H':
+		case 'H':
+			// The value of an H field is written as its hex digits.
+			aux = append(aux, []byte(a[:3])...)
+			for _, b := range a[3:] {
+				aux = append(aux, digits[b>>4], digits[b&0xf])
+			}
 			aux = append(aux, 0)
+		case 'Z':
+			aux = append(aux, []byte(a)...)
+			aux = append(aux, 0)
+		default:
+			aux = append(aux, []byte(a)...)
 		}
 	}
 	return
